@@ -18,9 +18,12 @@ package main
 //                        arguments inside function literals).
 
 import (
+	"fmt"
 	"go/ast"
 	"go/token"
 	"go/types"
+	"os"
+	"sort"
 	"strings"
 )
 
@@ -38,6 +41,34 @@ func init() {
 			}
 		}
 	}
+	if os.Getenv("TRANS10_DEV") != "" { // under development
+		for _, u := range trUnits {
+			add := func(mod string, fs ...string) {
+				if u.agree == nil {
+					u.agree = map[string]string{}
+				}
+				for _, f := range fs {
+					u.funcs = append(u.funcs, f)
+					u.agree[f] = mod
+				}
+			}
+			switch u.pkg {
+			case "lib/common/mapper":
+				add("BalanceCmd", "Sequence", "Nil", "IdentityIf")
+			case "lib/common/predicate":
+				add("BalanceCmd", "And", "ByName")
+			case "lib/model/commodity":
+				add("BalanceCmd", "IdentityIf")
+			case "lib/amounts":
+				add("BalanceCmd", "CommodityMatches", "AccountMatches")
+			}
+		}
+		trUnits = append(trUnits, &trUnit{pkg: "cmd/commands", mod: "Commands", funcs: []string{"balanceRunner.execute"},
+			agree: map[string]string{"balanceRunner.execute": "BalanceCmd"}})
+		trFragSpecs["("+trKnutPath+"cmd/commands.balanceRunner).execute"] = []*trFragSpec{
+			{name: "query", kind: "expr", typ: trKnutPath + "lib/journal.Query"},
+		}
+	}
 	trUnits = append(trUnits,
 		&trUnit{pkg: "lib/common/regex", mod: "Regex", funcs: []string{"Regexes.MatchString"}, agree: map[string]string{"Regexes.MatchString": "Mapping"}},
 	)
@@ -46,6 +77,9 @@ func init() {
 	trOpaque["*regexp.Regexp"] = "Regexp.Ptr"
 	trPrims["(*regexp.Regexp).MatchString"] = trPrim{lean: "Regexp.MatchString", effect: true}
 	trDropped[trAccountPath+".Registry"] = true
+	trNilSlices[trKnutPath+"lib/amounts.AccountMatches"] = []string{"regexes"}
+	trVariadicOK[trKnutPath+"lib/common/mapper.Sequence"] = true
+	trVariadicOK[trKnutPath+"lib/common/predicate.And"] = true
 }
 
 // trDropped: struct types of translated packages whose values are never part of the translated state (a pointer to one is an
@@ -103,6 +137,9 @@ func (c *trCtx) regexpMatchCall(x *ast.CallExpr) (string, bool) {
 
 // internedNil: `nil` in a position of interned pointer type (a result, an argument): the zero value of the struct
 func (c *trCtx) internedNil(e ast.Expr, ty types.Type) (string, bool) {
+	if tp, ok := ty.(*types.TypeParam); ok && c.isNil(e) && trPointerConstraint(tp) {
+		return "(GoZero.zero : " + trMangle(tp.Obj().Name()) + ")", true // nil of a type parameter constrained to a pointer (mapper.Nil)
+	}
 	if !c.isNil(e) || !trIsInterned(ty) {
 		return "", false
 	}
@@ -113,4 +150,606 @@ func (c *trCtx) internedNil(e ast.Expr, ty types.Type) (string, bool) {
 // modules of these structs were written without the field; the translated functions of the struct do not read it)
 var trKeepOmitted = map[string]bool{
 	trKnutPath + "lib/reports/balance.Renderer.CommodityDetails": true,
+}
+
+// ---------------------------------------------------------------------------------------------- generic helpers of the report commands
+//
+//   func F(xs ...T)      a translated VARIADIC function (trVariadicOK: mapper.Sequence, predicate.And): inside, the parameter is the slice;
+//                        a call `F(a, b)` passes the list `[a, b]` (`F(xs...)` the slice itself)
+//   [P interface{ *T }]  a type parameter constrained to a pointer type (mapper.Nil): `{P : Type} [GoZero P]`; `nil` of type P is the zero
+//                        value (a pointer to a struct is the struct value; nil is its zero value, as for the interned pointers).  A type
+//                        parameter that occurs only inside such constraints (`T`) has no Lean counterpart
+//   [T Named]            a type parameter constrained by an interface of result-only methods (predicate.ByName): one DICTIONARY
+//                        parameter `(T_Name : T → String)` per method after the type parameter; `t.Name()` ↦ `(T_Name t)`; a call
+//                        `ByName[*model.Commodity](…)` passes the translated method of the type argument (`commodity.Commodity.Name`)
+//   F(a…) for a curried  a function whose body is `return func(…) R {…}` is translated curried (`Remap rs a ext1`); a CALL of it passes
+//   translated F         the outer arguments only and is a function value: `(some (fun a => Remap rs a ext1))`, the callee's extra
+//                        parameters (ext functions, iteration orders) becoming extra parameters of the caller
+//   an argument for a    is not translated (account.Remap(reg.Accounts(), …): the *Registry parameter of Remap does not exist in Lean)
+//   DROPPED parameter
+
+// trCurried: translated functions whose body is `return func(…) R {…}`: the number of parameters of the literal
+var trCurried = map[*trFunc]int{}
+
+type trDictEntry struct {
+	tparam int    // index of the type parameter
+	method string // Go method name
+	param  string // Lean parameter name
+}
+
+// trDicts: the dictionary parameters of a generic function, in order; trDictName: type parameter → method → Lean parameter
+var trDicts = map[*types.Func][]trDictEntry{}
+var trDictName = map[*types.TypeParam]map[string]string{}
+
+func trTypeMentions(ty types.Type, tp *types.TypeParam, depth int) bool {
+	if depth > 8 || ty == nil {
+		return false
+	}
+	switch x := ty.(type) {
+	case *types.TypeParam:
+		return x == tp
+	case *types.Named:
+		if x.TypeArgs() != nil {
+			for i := 0; i < x.TypeArgs().Len(); i++ {
+				if trTypeMentions(x.TypeArgs().At(i), tp, depth+1) {
+					return true
+				}
+			}
+		}
+		return false
+	case *types.Pointer:
+		return trTypeMentions(x.Elem(), tp, depth+1)
+	case *types.Slice:
+		return trTypeMentions(x.Elem(), tp, depth+1)
+	case *types.Map:
+		return trTypeMentions(x.Key(), tp, depth+1) || trTypeMentions(x.Elem(), tp, depth+1)
+	case *types.Signature:
+		return trTypeMentions(x.Params(), tp, depth+1) || trTypeMentions(x.Results(), tp, depth+1)
+	case *types.Tuple:
+		for i := 0; i < x.Len(); i++ {
+			if trTypeMentions(x.At(i).Type(), tp, depth+1) {
+				return true
+			}
+		}
+	}
+	return false
+}
+
+// trTParamUnused: the type parameter occurs neither in the parameters nor in the results (only in constraints of other type parameters)
+func trTParamUnused(tp *types.TypeParam, sig *types.Signature) bool {
+	if sig.RecvTypeParams() != nil {
+		return false
+	}
+	return !trTypeMentions(sig.Params(), tp, 0) && !trTypeMentions(sig.Results(), tp, 0)
+}
+
+// trPointerConstraint: the constraint is `interface{ *T }`
+func trPointerConstraint(tp *types.TypeParam) bool {
+	iface, ok := tp.Constraint().Underlying().(*types.Interface)
+	if !ok || iface.NumMethods() != 0 || iface.NumEmbeddeds() != 1 {
+		return false
+	}
+	et := iface.EmbeddedType(0)
+	if u, ok := et.(*types.Union); ok {
+		if u.Len() != 1 || u.Term(0).Tilde() {
+			return false
+		}
+		et = u.Term(0).Type()
+	}
+	_, isPtr := et.(*types.Pointer)
+	return isPtr
+}
+
+// constraintParams: the Lean parameters of a type parameter whose constraint is a pointer type or an interface of result-only methods
+func (c *trCtx) constraintParams(tp *types.TypeParam, sig *types.Signature) ([]string, bool) {
+	n := trMangle(tp.Obj().Name())
+	if trPointerConstraint(tp) {
+		return []string{"{" + n + " : Type} [GoZero " + n + "]"}, true
+	}
+	iface, ok := tp.Constraint().Underlying().(*types.Interface)
+	if !ok || iface.NumEmbeddeds() != 0 || iface.NumMethods() == 0 {
+		return nil, false
+	}
+	res := []string{"{" + n + " : Type} [GoZero " + n + "]"}
+	names := map[string]string{}
+	var entries []trDictEntry
+	for i := 0; i < iface.NumMethods(); i++ {
+		m := iface.Method(i)
+		ms := m.Type().(*types.Signature)
+		if ms.Params().Len() != 0 || ms.Results().Len() != 1 {
+			return nil, false
+		}
+		pn := n + "_" + trMangle(m.Name())
+		c.used[pn] = true
+		res = append(res, "("+pn+" : "+n+" → "+c.leanType(ms.Results().At(0).Type(), tp.Obj().Pos())+")")
+		names[m.Name()] = pn
+		entries = append(entries, trDictEntry{tparam: tp.Index(), method: m.Name(), param: pn})
+	}
+	trDictName[tp] = names
+	fo := c.fn.obj.Origin()
+	var keep []trDictEntry
+	for _, e := range trDicts[fo] {
+		if e.tparam != tp.Index() {
+			keep = append(keep, e)
+		}
+	}
+	trDicts[fo] = append(keep, entries...)
+	return res, true
+}
+
+// tparamMethodCall: t.M() for t of a type parameter with a dictionary
+func (c *trCtx) tparamMethodCall(x *ast.CallExpr) (string, bool) {
+	sel, ok := trUnparen(x.Fun).(*ast.SelectorExpr)
+	if !ok || len(x.Args) != 0 {
+		return "", false
+	}
+	s, ok := c.info().Selections[sel]
+	if !ok || s.Kind() != types.MethodVal {
+		return "", false
+	}
+	tp, ok := s.Recv().(*types.TypeParam)
+	if !ok {
+		return "", false
+	}
+	pn, ok := trDictName[tp][sel.Sel.Name]
+	if !ok {
+		return "", false
+	}
+	return "(" + pn + " " + c.expr(sel.X) + ")", true
+}
+
+// dictArgs: the dictionary arguments of a call of a generic function with interface-constrained type parameters
+func (c *trCtx) dictArgs(tf *trFunc, x *ast.CallExpr) []string {
+	entries := trDicts[tf.obj.Origin()]
+	if len(entries) == 0 {
+		return nil
+	}
+	var id *ast.Ident
+	fun := trUnparen(x.Fun)
+	if ix, ok := fun.(*ast.IndexExpr); ok {
+		fun = trUnparen(ix.X)
+	}
+	if ix, ok := fun.(*ast.IndexListExpr); ok {
+		fun = trUnparen(ix.X)
+	}
+	switch f := fun.(type) {
+	case *ast.Ident:
+		id = f
+	case *ast.SelectorExpr:
+		id = f.Sel
+	}
+	inst, ok := c.info().Instances[id]
+	if id == nil || !ok {
+		trFail(x.Pos(), "call of the generic function %s: its type arguments are not known here", tf.leanName)
+	}
+	var res []string
+	for _, e := range entries {
+		ta := inst.TypeArgs.At(e.tparam)
+		if tp, isTP := ta.(*types.TypeParam); isTP {
+			if pn, ok := trDictName[tp][e.method]; ok {
+				res = append(res, pn)
+				continue
+			}
+		}
+		obj, _, _ := types.LookupFieldOrMethod(ta, true, c.fn.pkg.tpkg, e.method)
+		mo, _ := obj.(*types.Func)
+		var mf *trFunc
+		if mo != nil {
+			mf = c.t.funcs[mo.Origin()]
+		}
+		if mf == nil || mf.effect || len(mf.mut) > 0 || mf.norder > 0 || mf.rejected != nil {
+			trFail(x.Pos(), "the method %s of the type argument %s is not a translated pure function", e.method, ta)
+		}
+		c.fn.deps = append(c.fn.deps, mf)
+		res = append(res, c.t.qname(c.unit(), mf.unit, mf.leanName))
+	}
+	return res
+}
+
+// partialApp: a call of a curried translated function: the function value of its literal
+func (c *trCtx) partialApp(tf *trFunc, name string, args, extras []string) (string, bool) {
+	n := trCurried[tf]
+	if n == 0 {
+		return "", false
+	}
+	var vs []string
+	for i := 0; i < n; i++ {
+		vs = append(vs, c.fresh("a"))
+	}
+	app := name
+	for _, a := range args {
+		app += " " + a
+	}
+	app += " " + strings.Join(vs, " ")
+	for _, e := range extras {
+		app += " " + e
+	}
+	if !tf.effect {
+		app = "Outcome.ok (" + app + ")"
+	}
+	return "(some (fun " + strings.Join(vs, " ") + " => " + app + "))", true
+}
+
+// droppedArg: argument i of a call of a translated function whose parameter i is dropped
+func (c *trCtx) droppedArg(fobj *types.Func, i int) bool {
+	if fobj == nil || c.t.funcs[fobj.Origin()] == nil {
+		return false
+	}
+	sig := fobj.Type().(*types.Signature)
+	return i < sig.Params().Len() && trIsDropped(sig.Params().At(i).Type())
+}
+
+// variadicArgs: from argument i on, the arguments of a translated variadic function as one list
+func (c *trCtx) variadicArgs(fobj *types.Func, x *ast.CallExpr, i int, argExprs []ast.Expr) (string, bool) {
+	if fobj == nil || c.t.funcs[fobj.Origin()] == nil {
+		return "", false
+	}
+	sig := fobj.Type().(*types.Signature)
+	if !sig.Variadic() || i != sig.Params().Len()-1 {
+		return "", false
+	}
+	if x.Ellipsis != token.NoPos {
+		return c.expr(argExprs[i]), true
+	}
+	elem := sig.Params().At(i).Type().(*types.Slice).Elem()
+	var parts []string
+	for _, a := range argExprs[i:] {
+		parts = append(parts, c.exprAs(a, elem))
+	}
+	return "[" + strings.Join(parts, ", ") + "]", true
+}
+
+// trInstantiatedFunc: F of `F[T]` when F is a declared function
+func trInstantiatedFunc(info *types.Info, e ast.Expr) *types.Func {
+	switch g := trUnparen(e).(type) {
+	case *ast.Ident:
+		fo, _ := info.Uses[g].(*types.Func)
+		return fo
+	case *ast.SelectorExpr:
+		if _, isSel := info.Selections[g]; isSel {
+			return nil
+		}
+		fo, _ := info.Uses[g.Sel].(*types.Func)
+		return fo
+	}
+	return nil
+}
+
+// valueRefs: the translated functions that f mentions other than by calling them (`return True[T]`, `mapper.Identity[*Commodity]` as a
+// field value): they are emitted before f; they do not make f effectful
+func (t *trTranslator) valueRefs(f *trFunc) []*trFunc {
+	if f.decl == nil || f.decl.Body == nil || trFragsOf(f) != nil {
+		return nil
+	}
+	var res []*trFunc
+	seen := map[*trFunc]bool{}
+	ast.Inspect(f.decl.Body, func(n ast.Node) bool {
+		id, ok := n.(*ast.Ident)
+		if !ok {
+			return true
+		}
+		if fo, ok := f.pkg.info.Uses[id].(*types.Func); ok {
+			if g := t.funcs[fo.Origin()]; g != nil && !seen[g] {
+				seen[g] = true
+				res = append(res, g)
+			}
+		}
+		return true
+	})
+	return res
+}
+
+// ---------------------------------------------------------------------------------------------- fragments
+//
+// A FRAGMENT is a designated part of a function that as a whole is outside the subset (cmd/commands/balance.go `execute`: cobra, bufio,
+// os, interfaces …; account.Registry.SwapType: mutexes, the swap cache, the registry's lookup).  It is translated as a definition
+// `F.<name>` of its own:
+//   * kind "expr": one expression (the first composite literal of the given type); its value is the result
+//   * kind "stmts": a range of consecutive statements of the function body (from the first statement that declares the variable `from`
+//     to the one before the statement that `until` matches); the result is the tuple of the variables it declares or assigns that are
+//     used after it
+// The variables of the function that the fragment uses but does not declare are its PARAMETERS (dropped, like every parameter, when their
+// type is not translatable: `r`, `reg`; they may then occur only inside untranslated calls, whose results are `ext` parameters).
+// `F.<name>.externals` lists the source text of those calls, pinned by the agreement module.  What the rest of the function does with
+// the fragment's value is not translated.
+
+type trFragSpec struct {
+	name  string // Lean name after the function's
+	kind  string // "expr" | "stmts"
+	typ   string // expr: the literal's type, as go/types prints it
+	from  string // stmts: the first statement is the one that declares this variable
+	until string // stmts: source text prefix of the first statement after the fragment
+}
+
+// trFragSpecs: the fragments, by the full name of the enclosing function
+var trFragSpecs = map[string][]*trFragSpec{}
+
+func trFragsOf(f *trFunc) []*trFragSpec {
+	if f == nil || f.obj == nil {
+		return nil
+	}
+	return trFragSpecs[f.obj.FullName()]
+}
+
+// fragNodes: the nodes of a fragment
+func (t *trTranslator) fragNodes(f *trFunc, sp *trFragSpec) (ast.Expr, []ast.Stmt, []ast.Stmt) {
+	info := f.pkg.info
+	switch sp.kind {
+	case "expr":
+		var found ast.Expr
+		ast.Inspect(f.decl.Body, func(n ast.Node) bool {
+			if found != nil {
+				return false
+			}
+			if cl, ok := n.(*ast.CompositeLit); ok {
+				if tv, ok := info.Types[cl]; ok && tv.Type != nil && tv.Type.String() == sp.typ {
+					found = cl
+					return false
+				}
+			}
+			return true
+		})
+		if found == nil {
+			trFail(f.decl.Pos(), "fragment %s: no composite literal of type %s in %s", sp.name, sp.typ, f.leanName)
+		}
+		return found, nil, nil
+	case "stmts":
+		list := f.decl.Body.List
+		start, end := -1, -1
+		for i, s := range list {
+			if start < 0 {
+				if as, ok := s.(*ast.AssignStmt); ok && as.Tok == token.DEFINE {
+					for _, l := range as.Lhs {
+						if id, ok := l.(*ast.Ident); ok && id.Name == sp.from {
+							start = i
+						}
+					}
+				}
+				continue
+			}
+			if strings.HasPrefix(strings.Join(strings.Fields(trSrcText(t.l.fset, s)), " "), sp.until) {
+				end = i
+				break
+			}
+		}
+		if start < 0 || end < 0 {
+			trFail(f.decl.Pos(), "fragment %s: the statements from `%s := …` to `%s` are not found in %s", sp.name, sp.from, sp.until, f.leanName)
+		}
+		return nil, list[start:end], list[end:]
+	}
+	trFail(f.decl.Pos(), "fragment %s: unknown kind %s", sp.name, sp.kind)
+	return nil, nil, nil
+}
+
+func (t *trTranslator) fragRoots(f *trFunc) []ast.Node {
+	var res []ast.Node
+	for _, sp := range trFragsOf(f) {
+		func() {
+			defer func() { _ = recover() }()
+			e, ss, _ := t.fragNodes(f, sp)
+			if e != nil {
+				res = append(res, e)
+			}
+			for _, s := range ss {
+				res = append(res, s)
+			}
+		}()
+	}
+	return res
+}
+
+// fragCallees: the translated functions the fragments call or mention
+func (t *trTranslator) fragCallees(f *trFunc) []*trFunc {
+	var res []*trFunc
+	for _, n := range t.fragRoots(f) {
+		res = append(res, t.calleesIn(f.pkg.info, n)...)
+		ast.Inspect(n, func(m ast.Node) bool {
+			if id, ok := m.(*ast.Ident); ok {
+				if fo, ok := f.pkg.info.Uses[id].(*types.Func); ok {
+					if g := t.funcs[fo.Origin()]; g != nil {
+						res = append(res, g)
+					}
+				}
+			}
+			return true
+		})
+	}
+	return res
+}
+
+func (t *trTranslator) translateFragments(f *trFunc) {
+	var out strings.Builder
+	for _, sp := range trFragsOf(f) {
+		out.WriteString(t.translateFragment(f, sp))
+	}
+	f.text = out.String()
+}
+
+func (t *trTranslator) translateFragment(f *trFunc, sp *trFragSpec) string {
+	expr, stmts, after := t.fragNodes(f, sp)
+	var roots []ast.Node
+	if expr != nil {
+		roots = append(roots, expr)
+	}
+	for _, s := range stmts {
+		roots = append(roots, s)
+	}
+	from, to := roots[0].Pos(), roots[len(roots)-1].End()
+	if errs := f.pkg.errorsIn(from, to); len(errs) > 0 {
+		trFail(errs[0].Pos, "fragment %s uses a declaration outside the prelude and the translated packages: %s", sp.name, errs[0].Msg)
+	}
+	ff := &trFunc{unit: f.unit, pkg: f.pkg, decl: f.decl, obj: f.obj, leanName: f.leanName + "." + sp.name, effect: true}
+	c := &trCtx{t: t, fn: ff, names: map[types.Object]string{}, used: map[string]bool{"fuel": true}, opaqueParams: map[types.Object]bool{}}
+	c.retHook = func(x *ast.ReturnStmt) trLines { // (also: the externals are listed by source text, without line numbers)
+		trFail(x.Pos(), "a return statement inside the fragment %s is outside the subset", sp.name)
+		return nil
+	}
+	info := f.pkg.info
+	// the free variables: used inside, declared outside (in source order of their declarations)
+	declared := map[types.Object]bool{}
+	var free []*types.Var
+	seen := map[types.Object]bool{}
+	for _, n := range roots {
+		ast.Inspect(n, func(m ast.Node) bool {
+			id, ok := m.(*ast.Ident)
+			if !ok {
+				return true
+			}
+			if o := info.Defs[id]; o != nil {
+				declared[o] = true
+			}
+			if v, ok := info.Uses[id].(*types.Var); ok && !v.IsField() && !declared[v] && !seen[v] {
+				if v.Pkg() != nil && v.Parent() == v.Pkg().Scope() {
+					return true // a package-level variable
+				}
+				if v.Pos() >= from && v.Pos() < to {
+					return true // declared inside (a parameter of a literal)
+				}
+				seen[v] = true
+				free = append(free, v)
+			}
+			return true
+		})
+	}
+	sort.Slice(free, func(i, j int) bool { return free[i].Pos() < free[j].Pos() })
+	var params, dropped []string
+	for _, v := range free {
+		if d := c.paramDecl(v, from); d != "" {
+			params = append(params, d)
+		} else {
+			dropped = append(dropped, v.Name())
+		}
+	}
+	var term trLines
+	resType := ""
+	switch sp.kind {
+	case "expr":
+		ty := c.typeOf(expr)
+		resType = c.leanType(ty, expr.Pos())
+		v := c.exprAs(expr, ty)
+		term = trWrapPre(c.takePre(), trOne("Outcome.ok "+v))
+	case "stmts":
+		// the result: the variables declared or assigned in the fragment that the rest of the function uses
+		var outs []types.Object
+		outSeen := map[types.Object]bool{}
+		cand := map[types.Object]bool{}
+		for _, s := range stmts {
+			ast.Inspect(s, func(m ast.Node) bool {
+				if id, ok := m.(*ast.Ident); ok {
+					if o := info.Defs[id]; o != nil {
+						cand[o] = true
+					}
+				}
+				return true
+			})
+		}
+		for _, o := range c.assignedIn(roots...) {
+			cand[o] = true
+		}
+		for _, s := range after {
+			ast.Inspect(s, func(m ast.Node) bool {
+				if id, ok := m.(*ast.Ident); ok {
+					if o := info.Uses[id]; o != nil && cand[o] && !outSeen[o] {
+						outSeen[o] = true
+						outs = append(outs, o)
+					}
+				}
+				return true
+			})
+		}
+		sort.Slice(outs, func(i, j int) bool { return outs[i].Pos() < outs[j].Pos() })
+		if len(outs) == 0 {
+			trFail(from, "fragment %s: no variable of it is used afterwards", sp.name)
+		}
+		term = c.stmts(stmts, func() trLines {
+			v, ty := c.tupleOf(outs)
+			resType = ty
+			return trOne("Outcome.ok " + v)
+		})
+		if resType == "" {
+			trFail(from, "fragment %s: control does not reach its end", sp.name)
+		}
+	}
+	params = append(params, c.extraParams...)
+	f.deps = append(f.deps, ff.deps...)
+	var b strings.Builder
+	for _, a := range c.aux {
+		b.WriteString(a + "\n")
+	}
+	doc := "the expression of type `" + sp.typ + "`"
+	if sp.kind == "stmts" {
+		doc = "the statements from `" + sp.from + " := …` up to `" + sp.until + "…`"
+	}
+	dropDoc := ""
+	if len(dropped) > 0 {
+		dropDoc = "; variables of untranslatable types (dropped): " + strings.Join(dropped, ", ")
+	}
+	fmt.Fprintf(&b, "/-- Go: a FRAGMENT of `%s` (%s): %s; its free variables are the parameters%s -/\n", trSigText(f.decl), t.l.relPos(from), doc, dropDoc)
+	fmt.Fprintf(&b, "def %s %s : Outcome %s :=\n%s\n\n", ff.leanName, strings.Join(params, " "), resType, term.indent(2).String())
+	fmt.Fprintf(&b, "/-- the calls of untranslated functions whose results are the `ext` parameters of the fragment (source text; pinned by the agreement module) -/\ndef %s.externals : List String := %s\n\n",
+		ff.leanName, trLeanStrList(c.externals))
+	return b.String()
+}
+
+// extNilSlice: the result of an untranslated function of /repo passed for a nil-tracked slice parameter (amounts.AccountMatches(r.accounts.Regex())):
+// an extra parameter `ext<N> : Option (List T)` (none = nil), outside loops and closures only
+func (c *trCtx) extNilSlice(fobj *types.Func, i int, a ast.Expr) (string, bool) {
+	if fobj == nil || !trNilSliceParam(fobj, i) {
+		return "", false
+	}
+	call, ok := trUnparen(a).(*ast.CallExpr)
+	if !ok {
+		return "", false
+	}
+	fo := c.calledFunc(call)
+	if fo == nil || fo.Pkg() == nil || !strings.HasPrefix(fo.Pkg().Path(), trKnutPath) || c.t.funcs[fo.Origin()] != nil {
+		return "", false
+	}
+	if _, pinned := trPinned[fo.Origin().FullName()]; pinned {
+		return "", false
+	}
+	if c.loop != nil || c.inLambda > 0 || c.inCallback {
+		trFail(call.Pos(), "call of %s, which is not translated, inside a loop or closure is outside the subset", fo.FullName())
+	}
+	ty := "(Option " + c.leanType(fobj.Type().(*types.Signature).Params().At(i).Type(), a.Pos()) + ")"
+	c.norder++
+	n := "ext" + itoa(c.norder)
+	c.extraParams = append(c.extraParams, "("+n+" : "+ty+")")
+	c.extraTypes = append(c.extraTypes, ty)
+	c.externals = append(c.externals, n+" = "+trSrcText(c.t.l.fset, call)+" [none = nil]")
+	return n, true
+}
+
+// requalifyExtra: the type of an extra parameter of a callee of ANOTHER unit, as seen from this unit: the type names that the callee's
+// unit declares (written bare there) get its namespace
+func (c *trCtx) requalifyExtra(tf *trFunc, ty string) string {
+	if tf.unit == c.unit() {
+		return ty
+	}
+	ns := c.t.leanNS(tf.unit)
+	path := trKnutPath + tf.unit.pkg
+	var names []string
+	for o, seen := range c.t.declSeen {
+		if tn, ok := o.(*types.TypeName); ok && seen && tn.Pkg() != nil && tn.Pkg().Path() == path {
+			names = append(names, trMangle(tn.Name()))
+		}
+	}
+	sort.Strings(names)
+	isWord := func(b byte) bool {
+		return b == '_' || b == '.' || (b >= '0' && b <= '9') || (b >= 'a' && b <= 'z') || (b >= 'A' && b <= 'Z')
+	}
+	for _, n := range names {
+		var out strings.Builder
+		for i := 0; i < len(ty); {
+			if strings.HasPrefix(ty[i:], n) && (i == 0 || !isWord(ty[i-1])) && (i+len(n) == len(ty) || !isWord(ty[i+len(n)])) {
+				out.WriteString(ns + "." + n)
+				i += len(n)
+				continue
+			}
+			out.WriteByte(ty[i])
+			i++
+		}
+		ty = out.String()
+	}
+	return ty
 }
